@@ -67,6 +67,9 @@ type gridRoutine struct {
 	// flag value tables, indexed by axis value index
 	transVals []blas.Transpose
 	illegal   int
+	// wrapMethod is the same method on the adapter built on the wrapper
+	// package of the routine's precision (blas64, blas32, cblas128, cblas64).
+	wrapMethod reflect.Value
 }
 
 var (
@@ -83,6 +86,9 @@ func newGridRoutine(r *blasmodel.Routine, illegal int) *gridRoutine {
 		panic("no method " + r.Name)
 	}
 	g.method = reflect.ValueOf(blasgonum.Implementation{}).MethodByName(r.Name)
+	if w := wrapperImpl(r.Prec); w != nil {
+		g.wrapMethod = reflect.ValueOf(w).MethodByName(r.Name)
+	}
 	for i := 1; i < m.Type.NumIn(); i++ {
 		g.in = append(g.in, m.Type.In(i))
 	}
@@ -190,6 +196,9 @@ type gridState struct {
 	// override, when set for an operand, is passed instead of the Buf's
 	// own slice (guard-page copies of the operands).
 	override [blasmodel.NumOps]reflect.Value
+	// viaWrapper routes the next invoke through the wrapper package.
+	viaWrapper bool
+	npoints    int
 }
 
 func (s *gridState) slice(op int) reflect.Value {
@@ -479,7 +488,11 @@ func (s *gridState) invoke() *vrt.PanicInfo {
 		}
 		args[i] = v
 	}
-	return vrt.TryFast(func() { g.method.Call(args) })
+	m := g.method
+	if s.viaWrapper && g.wrapMethod.IsValid() {
+		m = g.wrapMethod
+	}
+	return vrt.TryFast(func() { m.Call(args) })
 }
 
 func scalarValue(ty reflect.Type, v complex128) reflect.Value {
@@ -521,6 +534,7 @@ func panicClass(p *vrt.PanicInfo, prefix string) (class string, own bool) {
 
 type blasStats struct {
 	points, skipped, valid, invalid atomic.Int64
+	viaWrapper                      atomic.Int64
 	multi                           atomic.Int64
 	negSingle                       atomic.Int64
 	rotmIllegalFlag                 atomic.Int64
@@ -589,7 +603,19 @@ func (s *gridState) checkPoint(c *vrt.Ctx, st *blasStats, desc func() string) {
 		}
 	}
 	st.points.Add(1)
+	s.npoints++
+	// Every second contract-satisfying tuple goes through the wrapper
+	// package (struct fields -> positional arguments), including the tuples
+	// with spare slice elements and non-minimal strides. The wrappers'
+	// documented extra restriction (no negative increment for the
+	// single-vector routines) is respected.
+	s.viaWrapper = len(bad) == 0 && !rotmIllegal && s.npoints&1 == 0 && !(r.SingleVector() && call.Inc[0] < 0) && call.N >= 0
+	if s.viaWrapper {
+		st.viaWrapper.Add(1)
+	}
+	via := s.viaWrapper
 	p := s.invoke()
+	s.viaWrapper = false
 	changedAll := call.Changed(s.snap, true)
 	flags := call.FlagString
 	switch {
@@ -609,6 +635,11 @@ func (s *gridState) checkPoint(c *vrt.Ctx, st *blasStats, desc func() string) {
 		st.valid.Add(1)
 		if p != nil {
 			cls, _ := panicClass(p, "blas:")
+			if via {
+				c.Violation(fmt.Sprintf("blas.%s|valid-arguments-via-wrapper-package|panic:%s", r.Name, cls),
+					fmt.Sprintf("%s satisfies the documented contract but panicked when called through the wrapper package: %s", desc(), p.Msg), call.Replay())
+				break
+			}
 			c.Violation(fmt.Sprintf("blas.%s|valid-arguments|panic:%s", r.Name, cls),
 				fmt.Sprintf("%s satisfies the documented contract but panicked: %s", desc(), p.Msg), call.Replay())
 			break
